@@ -108,3 +108,27 @@ pub fn quic_sender(
 pub fn endpoint_mapped_addrs(endpoint: &crate::Endpoint) -> VerifMappedAddrs {
     VerifMappedAddrs(endpoint.verif_inner().sock.mapped_addrs.clone())
 }
+
+/// Runs the receive-path address translation (`Socket::process_datagrams`) of a live endpoint
+/// over one batch of datagrams coming from `sources`, and returns the address under which
+/// each datagram is shown to QUIC.
+#[cfg(not(wasm_browser))]
+pub fn process_batch(endpoint: &crate::Endpoint, sources: &[Addr], len: usize) -> Vec<SocketAddr> {
+    let sock = &endpoint.verif_inner().sock;
+    let mut storage = vec![vec![7u8; len]; sources.len()];
+    let mut bufs: Vec<_> = storage
+        .iter_mut()
+        .map(|b| std::io::IoSliceMut::new(b))
+        .collect();
+    let mut metas = vec![noq_udp::RecvMeta::default(); sources.len()];
+    for meta in metas.iter_mut() {
+        meta.len = len;
+        meta.stride = len;
+    }
+    let infos: Vec<_> = sources
+        .iter()
+        .map(|a| super::transports::RecvInfo::from_addr(a.clone()))
+        .collect();
+    sock.process_datagrams(&mut bufs, &mut metas, &infos);
+    metas.iter().map(|m| m.addr).collect()
+}
